@@ -136,6 +136,51 @@ def drill(ids, all_checks):
     return 1 if bad else 0
 
 
+def refdrill(ids):
+    """behaviour-preserving refactorings under /verif/seeded/refactor/<id>/patch.diff: apply, run EVERY check, expect exit 0 (2 = gave up loudly, tolerated and
+    counted; 1 = false alarm)"""
+    rd = os.path.join(V, 'seeded', 'refactor')
+    man = json.load(open(os.path.join(V, 'MANIFEST.json')))
+    claimed = [c['property_id'] for c in man['checks']]
+    ids = ids or sorted(d for d in os.listdir(rd) if os.path.isdir(os.path.join(rd, d)))
+    rc, out = sh('git status --porcelain --untracked-files=no', cwd=R)
+    assert out.strip() == '', '/repo is dirty:\n' + out
+    resf = os.path.join(V, 'seeded', 'REFACTOR_RESULTS.json')
+    try:
+        results = json.load(open(resf))
+    except (OSError, ValueError):
+        results = {}
+    for i in ids:
+        d = os.path.join(rd, i)
+        rc, out = sh(['git', 'apply', os.path.join(d, 'patch.diff')], cwd=R)
+        if rc != 0:
+            print('%-12s SKIPPED: patch does not apply (%s)' % (i, out.strip().splitlines()[0] if out.strip() else ''))
+            sh('git checkout -- .', cwd=R)
+            continue
+        row = {}
+        try:
+            from concurrent.futures import ThreadPoolExecutor
+            # warm the fact cache once (sequentially for the first check), then the rest in parallel
+            def one(p):
+                rc, out = sh([os.path.join(V, 'check'), p], cwd=V)
+                keys = [ln.split('] ')[0].split('[')[-1] for ln in out.splitlines() if ': [R' in ln]
+                broken = [ln for ln in out.splitlines() if ln.startswith('ANALYSIS-BROKEN')]
+                return p, {'exit': rc, 'reported': sorted(set(keys)), 'broken': broken[:1]}
+            p0, r0 = one(claimed[0])
+            row[p0] = r0
+            with ThreadPoolExecutor(max_workers=6) as ex:
+                for p, r in ex.map(one, claimed[1:]):
+                    row[p] = r
+        finally:
+            sh('git checkout -- .', cwd=R)
+        alarms = {p: r['reported'] for p, r in row.items() if r['exit'] == 1}
+        gaveup = {p: r['broken'] for p, r in row.items() if r['exit'] == 2}
+        results[i] = {'false_alarms': alarms, 'gave_up': gaveup, 'silent': sorted(p for p, r in row.items() if r['exit'] == 0)}
+        print('%-12s false alarms: %s   gave up (exit 2): %s' % (i, alarms or 'none', sorted(gaveup) or 'none'), flush=True)
+        json.dump(results, open(resf, 'w'), indent=1, sort_keys=True)
+    return 0
+
+
 if __name__ == '__main__':
     a = sys.argv[1:]
     if a and a[0] == 'confirm':
@@ -172,6 +217,8 @@ if __name__ == '__main__':
             json.dump(meta, open(mp, 'w'), indent=1)
             print(i, 'confirmed' if meta['confirmed'] else 'NOT CONFIRMED', [s['step'] for s in fails], flush=True)
         sys.exit(0)
+    elif a and a[0] == 'refdrill':
+        sys.exit(refdrill([x for x in a[1:] if not x.startswith('--')]))
     elif a and a[0] == 'drill':
         allc = '--all-checks' in a
         sys.exit(drill([x for x in a[1:] if not x.startswith('--')], allc))
